@@ -125,8 +125,8 @@ def run(module: str,
         m = _PROP.search(p.stdout)
         if m:
             res.violated = m.group(1) or 'temporal'
-    if res.violated is None and ('Error:' in p.stdout or p.returncode not in (0,)):
-        em = re.search(r'Error:.*(?:\n.*){0,12}', p.stdout)
+    if res.violated is None and (re.search(r'^Error:', p.stdout, re.M) or p.returncode not in (0,)):
+        em = re.search(r'^Error:.*(?:\n.*){0,12}', p.stdout, re.M)
         res.error = em.group(0) if em else 'rc=%d' % p.returncode
     for m in _COV.finditer(p.stdout):
         res.coverage[m.group(2) + '!' + m.group(1)] = res.coverage.get(m.group(2) + '!' + m.group(1), 0) + int(m.group(3))
